@@ -4,6 +4,8 @@
 mod common;
 mod strings;
 mod suite_entity;
+mod idmap_hist;
+mod idmap_oracle;
 mod suite_idmap;
 mod suite_tree;
 mod tree;
